@@ -1120,6 +1120,20 @@ func (interp *Interpreter) cfg(root *node, sc *scope, importPath, pkgName string
 				err = n.cfgErrorf("invalid operation: cannot send to non-channel %s", n.child[0].typ.id())
 				break
 			}
+			if n.child[0].typ.TypeOf().ChanDir() == reflect.RecvDir {
+				err = n.cfgErrorf("invalid operation: cannot send to receive-only channel %s", n.child[0].typ.id())
+				break
+			}
+			ct := n.child[0].typ
+			for ct.cat == linkedT {
+				ct = ct.val
+			}
+			if (ct.cat == chanT || ct.cat == chanSendT) && ct.val != nil {
+				// The sent value must be assignable to the channel's element type.
+				if err = check.assignment(n.child[1], ct.val, "send"); err != nil {
+					break
+				}
+			}
 			fallthrough
 
 		case declStmt, exprStmt:
